@@ -23,7 +23,7 @@ REPO = os.environ.get('SKGLM_REPO', '/repo')
 N, TK = 2, 2
 
 
-def mtbcd_task(T, fit_intercept, warm, P=1):
+def mtbcd_task(T, fit_intercept, warm, P=1, anderson=False):
     import z3
     from pv import sym, symrun
     from pv.sproof import check_contract, zpre
@@ -46,6 +46,7 @@ def mtbcd_task(T, fit_intercept, warm, P=1):
     mat = lambda ts: np.array([[R(t) for t in row] for row in ts], dtype=object)
     log = []
     cnt = [0]
+    xw_box = [None]
 
     class Datafit:
         def initialize(self, X_, Y_):
@@ -62,6 +63,7 @@ def mtbcd_task(T, fit_intercept, warm, P=1):
 
         def value(self, Y_, W_, XW_):
             log.append(('datafit.value', flat(XW_)))
+            xw_box[0] = XW_                     # the solver's model-fit buffer (the last objective is evaluated on it before return)
             return R(VAL(*flat(XW_)))
 
     class Penalty:
@@ -131,6 +133,22 @@ def mtbcd_task(T, fit_intercept, warm, P=1):
                 return np.arange(len(a))
             return np.argpartition(a, kth, *args, **k)
 
+        @staticmethod
+        def all(a, *args, **k):
+            if anderson:
+                # `if not np.all(W[j] == old)` only skips an update by zero: always taking the update branch is equivalent and keeps
+                # the 6-epoch run of the Anderson scenario to a handful of paths (the skip branch is covered by the kernel tasks)
+                return False
+            return np.all(a, *args, **k)
+
+        class linalg:
+            LinAlgError = np.linalg.LinAlgError
+
+            @staticmethod
+            def solve(A, b):
+                # scipy/numpy contract: some vector (the normal equations of the extrapolation); arbitrary here
+                return np.array([R(z3.Real(f'solve{i}')) for i in range(len(b))], dtype=object)
+
     def fitof(Wt):
         return [[sum((X[i][j] * Wt[j][k] for j in range(P)), z3.RealVal(0)) + (Wt[-1][k] if fit_intercept else 0)
                  for k in range(TK)] for i in range(N)]
@@ -140,7 +158,10 @@ def mtbcd_task(T, fit_intercept, warm, P=1):
         cnt[0] = 0
         Xs = mat(X)
         Y = mat([[z3.Real(f'Y{i}_{k}') for k in range(TK)] for i in range(N)])
-        solver = M.MultiTaskBCD(max_iter=2, max_epochs=1, p0=P, tol=R(tol), use_acc=False, fit_intercept=fit_intercept)
+        if anderson:
+            solver = M.MultiTaskBCD(max_iter=1, max_epochs=6, p0=P, tol=R(tol), use_acc=True, fit_intercept=fit_intercept)
+        else:
+            solver = M.MultiTaskBCD(max_iter=2, max_epochs=1, p0=P, tol=R(tol), use_acc=False, fit_intercept=fit_intercept)
         Wi = XWi = None
         if warm:
             Wi = mat(W0)
@@ -151,10 +172,10 @@ def mtbcd_task(T, fit_intercept, warm, P=1):
             out = solver._solve(Xs, Y, Datafit(), Penalty(), Wi, XWi)
         finally:
             M.norm, M.np = saved
-        return out, list(log), Wi, XWi
+        return out, list(log), Wi, XWi, xw_box[0]
 
     def post(out, pth):
-        (W, hist, stop), calls, Wi, XWi = out
+        (W, hist, stop), calls, Wi, XWi, XWret = out
         cs = []
         Wl = [[L(W[r, k]) for k in range(TK)] for r in range(rows)]
         if warm:
@@ -162,6 +183,13 @@ def mtbcd_task(T, fit_intercept, warm, P=1):
             XW = XWi
         else:
             XW = None
+        if anderson:
+            fw = fitof(Wl)
+            pv = [c for c in calls if c[0] == 'penalty.value']
+            cs.append(('anderson:inv-after-the-extrapolation-step:XW==X.W[:n_features]+W[-1]', [],
+                       z3.And(*[L(XWret[i, k]) == fw[i][k] for i in range(N) for k in range(TK)])))
+            cs.append(('anderson:objectives-compared-penalise-the-feature-rows-only', [], z3.BoolVal(all(c[1] == P for c in pv) and len(pv) >= 2)))
+            return cs
         sd = [c for c in calls if c[0] == 'subdiff_distance' and len(c[3]) == P]
         if not sd:
             return cs + [('score-evaluated-at-least-once', [], z3.BoolVal(False))]
@@ -191,7 +219,8 @@ def mtbcd_task(T, fit_intercept, warm, P=1):
             cs.append(('history[-1]==datafit.value+penalty.value(W[:n_features])-of-the-returned-point', [], L(hist[-1]) == exp))
         return cs
     # warm start: non-zero rows (a zero row is the cold start's case) -- keeps the number of paths down
-    pre = zpre([tol > 0] + [t > 0 for t in lip] + ([W0[r][0] > 0 for r in range(rows)] if warm else []))
+    pre = zpre([tol > 0] + [t > 0 for t in lip] + ([W0[r][0] > 0 for r in range(rows)] if warm else []) +
+               ([sum(z3.Real(f'solve{i}') for i in range(5)) != 0] if anderson else []))
     check_contract(T, f'MultiTaskBCD._solve[fit_intercept={fit_intercept},{"warm" if warm else "cold"}]', run, pre, post, strength='B',
                    safety=False, replay=dict(fn='contracts.mtbcd:replay', args=dict(fit_intercept=fit_intercept)))
 
@@ -200,6 +229,9 @@ for _fi in (False, True):
     for _w in (False, True):
         add_task(['C01', 'C05', 'C17'], f'solvers:MultiTaskBCD._solve[p=1,fi={int(_fi)},{"warm" if _w else "cold"}]', mtbcd_task, strength='B',
                  fit_intercept=_fi, warm=_w, P=1)
+for _fi in (False, True):
+    add_task(['C01', 'C03', 'C05'], f'solvers:MultiTaskBCD._solve[p=1,fi={int(_fi)},cold,anderson-step]', mtbcd_task, strength='B',
+             fit_intercept=_fi, warm=False, P=1, anderson=True)
 add_task(['C01', 'C05', 'C17'], 'solvers:MultiTaskBCD._solve[p=2,fi=0,cold]', mtbcd_task, strength='B', tier='thorough',
          fit_intercept=False, warm=False, P=2)
 
